@@ -46,29 +46,45 @@ def selectRsp (f : Frame) (status : Nat) : Out := .ctrl f.session 0 status 2 f.s
 def deselectRsp (f : Frame) (status : Nat) : Out := .ctrl f.session 0 status 4 f.sys
 def linktestRsp (f : Frame) : Out := .ctrl 0xFFFF 0 0 6 f.sys
 
-/-- Which open transaction (if any) the frame's system bytes belong to. -/
+/-- Which open transaction (if any) a frame's system bytes belong to. Transactions have a kind: a control
+    response can only answer a control transaction, a data secondary only a data transaction; a Reject.req
+    may refer to either (E37 §8.3.20). -/
 inductive Tx
-  | none        -- no open transaction with these system bytes
-  | ownSelect   -- our own Select.req awaiting Select.rsp
-  | other       -- another open transaction of ours (linktest probe, data primary awaiting reply)
+  | none        -- no open transaction of a matching kind with these system bytes
+  | ownSelect   -- our own Select.req awaiting Select.rsp (T6)
+  | other       -- another open CONTROL transaction of ours (linktest probe)
+  | data        -- an open DATA transaction of ours (primary awaiting its reply, T3)
   deriving DecidableEq, Repr
 
+/-- for a control response -/
 def txOf (s : RState) (sys : Nat) : Tx :=
   match s.openSel with
   | some x => if x = sys then .ownSelect else if s.openOther.contains sys then .other else .none
   | none => if s.openOther.contains sys then .other else .none
+
+/-- for a Reject.req -/
+def txOfAny (s : RState) (sys : Nat) : Tx :=
+  match txOf s sys with
+  | .none => if s.openData.contains sys then .data else .none
+  | t => t
 
 def closeTx (s : RState) (sys : Nat) : RState :=
   match txOf s sys with
   | .ownSelect => { s with openSel := none }
   | _ => { s with openOther := s.openOther.erase sys }
 
+def closeDataTx (s : RState) (sys : Nat) : RState := { s with openData := s.openData.erase sys }
+
 def selected (s : RState) : Bool := s.st == .selected
 
-/-- Entering SELECTED is only possible from NOT SELECTED (E37 state diagram, transition 4 / "already active"). -/
-def enterSelected (s : RState) : RState := if s.st = .notSelected then { s with st := .selected } else s
+/-- Entering SELECTED is only possible from NOT SELECTED (E37 state diagram); it ends the T7 dwell (§9.2.2). -/
+def enterSelected (s : RState) : RState := if s.st = .notSelected then { s with st := .selected, t7 := false } else s
 
-def down (s : RState) : RState := { s with st := .notConnected }
+/-- Back to NOT SELECTED on the same TCP connection: the T7 dwell applies again (if T7 is configured). -/
+def leaveSelected (c : Cfg) (s : RState) : RState := { s with st := .notSelected, t7 := c.t7 }
+
+/-- NOT CONNECTED: every transaction is over, every timer stopped. -/
+def disconnected : RState := ⟨.notConnected, none, [], [], false⟩
 
 /-- S9F1 applies to a data message whose session id is not ours, unless it is itself an S9F1. -/
 def wantsS9F1 (c : Cfg) (f : Frame) : Bool :=
@@ -90,40 +106,37 @@ def prescribed (c : Cfg) (s : RState) (f : Frame) : RState × List Out × Effect
     if selected s then (s, [selectRsp f 1], .none) else (enterSelected s, [selectRsp f 0], .none)
   -- §7.7: deselect responder. Status 0 ends the selection; 1 = communication not established
   | .deselectReq =>
-    if selected s then ({ s with st := .notSelected }, [deselectRsp f 0], .none) else (s, [deselectRsp f 1], .none)
+    if selected s then (leaveSelected c s, [deselectRsp f 0], .none) else (s, [deselectRsp f 1], .none)
   -- §7.8
   | .linktestReq => (s, [linktestRsp f], .none)
   -- §7.9.2: Separate ends the connection if SELECTED; never answered; ignored otherwise
-  | .separateReq => if selected s then (down s, [], .peerSeparate) else (s, [], .none)
+  | .separateReq => if selected s then (disconnected, [], .peerSeparate) else (s, [], .none)
   -- responses
   | .selectRsp =>
     match txOf s f.sys with
-    | .none => (s, [reject f 3], .none)                                   -- §8.3.20: no open transaction
+    | .none | .data => (s, [reject f 3], .none)                           -- §8.3.20: no open transaction
     | .ownSelect =>
       if f.b3 = 0 then (enterSelected (closeTx s f.sys), [], .none)       -- §7.4.2: communication established
       else if f.b3 = 1 then (closeTx s f.sys, [], .none)                  -- already active: nothing to do
-      else (down (closeTx s f.sys), [], .selectFailed)                    -- select refused: communication failure
+      else (disconnected, [], .selectFailed)                              -- select refused: communication failure
     | .other => if f.b3 = 0 then (enterSelected (closeTx s f.sys), [], .none) else (closeTx s f.sys, [], .none)
   | .deselectRsp | .linktestRsp =>
     match txOf s f.sys with
-    | .none => (s, [reject f 3], .none)
-    | .ownSelect => (down (closeTx s f.sys), [], .selectFailed)           -- wrong response to our Select.req
+    | .none | .data => (s, [reject f 3], .none)
+    | .ownSelect => (disconnected, [], .selectFailed)                     -- wrong response to our Select.req
     | .other => (closeTx s f.sys, [], .none)
   -- §8.3.20: a Reject.req is never itself rejected; it fails the transaction it refers to, if any
   | .rejectReq =>
-    match txOf s f.sys with
+    match txOfAny s f.sys with
     | .none => (s, [], .none)
-    | .ownSelect => (down (closeTx s f.sys), [], .selectFailed)
+    | .ownSelect => (disconnected, [], .selectFailed)
     | .other => (closeTx s f.sys, [], .none)
+    | .data => (closeDataTx s f.sys, [], .none)
   -- data: only while SELECTED (§7.10.3 reason 4 otherwise, byte 2 = SType 0)
   | .data =>
     if !selected s then (s, [reject f 4], .none)
     else if wantsS9F1 c f then (s, [.s9f1 c.sessionID f], .none)
-    else if isReply f then
-      match txOf s f.sys with
-      | .none => (s, [.deliver f], .none)
-      | .ownSelect => (down (closeTx s f.sys), [], .selectFailed)
-      | .other => (closeTx s f.sys, [], .none)
+    else if isReply f && s.openData.contains f.sys then (closeDataTx s f.sys, [], .none)
     else (s, [.deliver f], .none)
 
 /-- The table folded over a frame sequence; a link that went down answers nothing any more. -/
